@@ -398,6 +398,16 @@ type teeConn struct {
 	net.Conn
 	mu   sync.Mutex
 	wire []byte
+	// maxRead > 0: every Read returns at most maxRead bytes, as a TCP connection does with any packet
+	// larger than a segment (the io.Reader contract allows short reads at any time)
+	maxRead int
+}
+
+func (t *teeConn) Read(p []byte) (int, error) {
+	if t.maxRead > 0 && len(p) > t.maxRead {
+		p = p[:t.maxRead]
+	}
+	return t.Conn.Read(p)
 }
 
 func (t *teeConn) Write(p []byte) (int, error) {
@@ -442,7 +452,8 @@ func connPair(o *hx.Out, r *hx.Rng, thr int, both bool) (ok bool) {
 	key := r.Bytes(16)
 	blk, _ := aes.NewCipher(key)
 	a, b := net.Pipe()
-	ta, tb := &teeConn{Conn: a}, &teeConn{Conn: b}
+	frag := r.Pick(0, 0, 1, 7, 61, 1460)
+	ta, tb := &teeConn{Conn: a, maxRead: frag}, &teeConn{Conn: b, maxRead: frag}
 	ca, cb := mcnet.WrapConn(ta), mcnet.WrapConn(tb)
 	// as bot/login.go and server/auth do: key doubles as IV, one block shared by both streams of an end
 	ca.SetCipher(CFB8.NewCFB8Encrypt(blk, key), CFB8.NewCFB8Decrypt(blk, key))
@@ -471,7 +482,7 @@ func connPair(o *hx.Out, r *hx.Rng, thr int, both bool) (ok bool) {
 	if both {
 		ba = mk(genPacketSizes(r, thr))
 	}
-	desc := fmt.Sprintf("conn thr=%d both=%v ab=%d ba=%d", thr, both, len(ab), len(ba))
+	desc := fmt.Sprintf("conn thr=%d both=%v ab=%d ba=%d max-read=%d", thr, both, len(ab), len(ba), frag)
 	var wg sync.WaitGroup
 	var mu sync.Mutex
 	failed := false
